@@ -32,7 +32,7 @@ DESIGN_REF = "DESIGN.md section 3 (C06), section 4 (F1)"
 
 
 def strategy(tier):
-    return lossgen.loss_case(target_param="subset-ordered")
+    return lossgen.loss_case(target_param="subset-ordered", catalogue=1)
 
 
 def oracle(case, rec):
